@@ -220,6 +220,12 @@ def rule_N2(prog, fixture=False):
     # restrict to the prime machinery itself (the file that defines the API), plus whatever it calls in the repo
     api_files = {f.file for f in roots}
     funcs = [f for f in reach.values() if f.file in api_files]
+    # the range checks of the slice classes decide from comparisons as well: a product of two caller-chosen ints in one of them
+    # ( (i2 - i1) * step < 0 ) wraps for long spans with large steps and the check decides the wrong way
+    slice_funcs = [f for f in prog.functions.values() if not f.get("implicit") and prog.rel(f.file).endswith("include/dsplib/slice.h")
+                   and f.usr not in reach]
+    slice_usrs = {f.usr for f in slice_funcs}
+    funcs = funcs + slice_funcs
     res.stats["functions"] = sorted(f.short for f in funcs)
     cmp_sites = 0
     for f in sorted(funcs, key=lambda f: (f.line, f.name)):
@@ -239,8 +245,9 @@ def rule_N2(prog, fixture=False):
             key = "N2:%s:cmp%d" % (fkey(f), idx)
             where = "%s:%d" % (rel, n.line)
             what = "%s in %s" % (n.text(), f.short)
+            px = {"props": ["C04", "C05"] if f.usr in slice_usrs else ["C15", "C05"]}
             if not prods:
-                res.add(key, DISCHARGED, where, what, "no product in the bound (division form or plain comparison)", func=f.name)
+                res.add(key, DISCHARGED, where, what, "no product in the bound (division form or plain comparison)", func=f.name, extra=px)
                 continue
             bad = []
             for x in prods:
@@ -260,11 +267,11 @@ def rule_N2(prog, fixture=False):
                                % (x.text(), x.type, have, wa, wb))
             incl = _square_bound_inclusive(n, prods)
             if bad:
-                res.add(key, VIOLATED, where, what, "; ".join(bad) + ": the bound wraps for large 32-bit arguments", func=f.name)
-            elif incl is not None:
-                res.add(key, VIOLATED, where, what, incl, func=f.name)
+                res.add(key, VIOLATED, where, what, "; ".join(bad) + ": the bound wraps for large 32-bit arguments", func=f.name, extra=px)
+            elif incl is not None and f.usr not in slice_usrs:
+                res.add(key, VIOLATED, where, what, incl, func=f.name, extra=px)
             else:
-                res.add(key, DISCHARGED, where, what, "product computed in a sufficiently wide type; square bound is inclusive", func=f.name)
+                res.add(key, DISCHARGED, where, what, "product computed in a sufficiently wide type; square bound is inclusive", func=f.name, extra=px)
     res.stats["comparison_sites"] = cmp_sites
     return res
 
